@@ -123,14 +123,17 @@ def check(run: Run) -> None:
     run.floor("{name} substitution sites", sites, 2)
 
     # ---- R2
-    for target, label in ((F_EXPAND, "expand_saved_queries"), (F_SAVED, "_get_saved_where_filter")):
-        callers = model.callers_of(target)
+    expansion_scenarios(run, model)
+    for target, label in ((F_EXPAND, "expand_saved_queries"),):
+        callers = [(c, k) for c, k in model.callers_of(target) if not c.qualname.startswith(MOD + ".")]
         run.floor(f"call sites of {label}", len(callers), 1)
         for caller, call in callers:
             var = None
             for n in walk_no_nested(caller.node):
                 if isinstance(n, ast.Assign) and n.value is call and isinstance(n.targets[0], ast.Name):
                     var = n.targets[0].id
+                if isinstance(n, ast.NamedExpr) and n.value is call:
+                    var = n.target.id
             if var is None:
                 run.undecided("C15.R2", caller.name, f"result of {label} is not bound to a variable")
                 continue
@@ -141,9 +144,12 @@ def check(run: Run) -> None:
                 if i < 0:
                     continue
                 known_not_none = False
-                for ev in p.events[i + 1:]:
+                start = i if (p.events[i][0] == "assume" and any(isinstance(x, ast.NamedExpr) and x.value is call for x in ast.walk(p.events[i][1]))) else i + 1
+                for ev in p.events[start:]:
                     if ev[0] == "assume":
                         e = ev[1]
+                        if isinstance(e, ast.Compare) and isinstance(e.left, ast.NamedExpr) and e.left.target.id == var:
+                            e = ast.Compare(left=ast.Name(id=var, ctx=ast.Load()), ops=e.ops, comparators=e.comparators)
                         if isinstance(e, ast.Compare) and isinstance(e.left, ast.Name) and e.left.id == var and isinstance(e.comparators[0], ast.Constant) and e.comparators[0].value is None:
                             is_none = isinstance(e.ops[0], (ast.Is, ast.Eq)) == ev[2]
                             if is_none:
@@ -344,3 +350,73 @@ def _flows_from(model: PyModel, fi, source: str) -> set[str]:
         if (len(tainted), len(containers)) == before:
             break
     return tainted
+
+
+def _top_level_pipe(clause: str) -> bool:
+    depth = 0
+    for ch in clause:
+        if ch == "(":
+            depth += 1
+        elif ch == ")":
+            depth -= 1
+        elif ch == "|" and depth == 0:
+            return True
+    return False
+
+
+def expansion_scenarios(run: Run, model: PyModel) -> None:
+    """Abstract evaluation of expand_saved_queries over a small virtual zoq/ directory (the interpreter reads the pages from the
+    scenario, nothing touches a disk): a reference is replaced by the saved WHERE clause (its O / G clauses cut off), nested
+    references are expanded, a clause with a top-level `|` arrives parenthesised (also when it merely starts with `(` and ends
+    with `)`), and a reference to a page that does not exist -- directly or nested -- makes the expansion fail (None)."""
+    from ..absint import Raised
+    from ..virtual import World, vpath
+
+    pages = {"plain": "# W +p O alpha", "alt": "# W a | b\n\n- some old result", "outer": "# W x {alt}", "grp": "# W (o +aa) | (- +bb) G file", "dangling": "# W y {nope}"}
+    W = World(model, files={}, old_map=None, indexed=set(), errors=set(), whitelist=[""], contents={f"/Z/zoq/{k}.zoq": v for k, v in pages.items()}, missing="all-but-contents")
+    from ..absint import Interp, State
+
+    I = Interp(model, probes=W.probes(), max_states=4000)
+    clause = {"plain": "+p", "alt": "a | b", "grp": "(o +aa) | (- +bb)"}
+    clause["outer"] = "x (a | b)"
+    cases = [("W z {plain}", [("plain", clause["plain"])]), ("W z {alt}", [("alt", clause["alt"])]), ("W {alt} z", [("alt", clause["alt"])]), ("W z {outer}", [("outer", clause["outer"])]),
+             ("W z {grp}", [("grp", clause["grp"])]), ("W {plain} {alt}", [("plain", clause["plain"]), ("alt", clause["alt"])]), ("W z {nope}", None), ("W z {dangling}", None), ("W plain text", [])]
+    n = 0
+    for q, refs in cases:
+        try:
+            res = I.run_function(F_EXPAND, [vpath("/Z"), q], st=State())
+        except Exception as e:
+            run.undecided("C15.R1", "expand_saved_queries", f"{q!r}: cannot interpret: {type(e).__name__}: {str(e)[:100]}")
+            continue
+        for v, s in res:
+            n += 1
+            if isinstance(v, Raised) or s.imprecise:
+                run.undecided("C15.R1", "expand_saved_queries", f"{q!r}: " + (f"raises {v.exc}" if isinstance(v, Raised) else "; ".join(s.imprecise[:2])))
+                continue
+            if refs is None:
+                run.check("C15.R2", f"{q!r}: a reference to a saved query that does not exist makes the expansion fail", v is None, "expand_saved_queries", f"{q!r} -> {v!r}",
+                          f"expanding {q!r} (the referenced page does not exist) yields {v!r} instead of failing: the reference is silently ignored", file=FILE)
+                continue
+            # acceptable results: each reference replaced by its clause, parenthesised when it has a top-level '|' (optional otherwise)
+            accept = {q}
+            for name, cl in refs:
+                nxt = set()
+                for t in accept:
+                    forms = [f"({cl})"] + ([] if _top_level_pipe(cl) else [cl])
+                    nxt |= {t.replace("{" + name + "}", f) for f in forms}
+                accept = nxt
+            # nested clause may itself carry optional parentheses around the inner group
+            if any(nm == "outer" for nm, _ in refs):
+                accept |= {t.replace("(x (a | b))", "x (a | b)") for t in accept} | {t.replace("x (a | b)", "(x (a | b))") for t in accept if "(x (a | b))" not in t}
+            ok = isinstance(v, str) and v in accept
+            why = ""
+            if isinstance(v, str) and not ok:
+                if "{" in v:
+                    why = "a reference is left unexpanded"
+                elif any(_top_level_pipe(cl) and f"({cl})" not in v for _, cl in refs):
+                    why = "a clause containing alternatives is spliced in without parentheses: AND binds tighter than OR, so the surrounding atoms only constrain the first / last alternative"
+                else:
+                    why = "the spliced text is not the saved WHERE clause (O / G clauses or later lines of the page leak in, or words are lost)"
+            run.check("C15.R1" if refs else "C15.R3", f"{q!r} expands to the saved clauses, grouped where they contain alternatives", ok, "expand_saved_queries", f"{q!r} -> {v!r}",
+                      f"{q!r} expands to {v!r}; acceptable: {sorted(accept)[:3]} -- {why}", file=FILE)
+    run.floor("saved-query expansion scenarios", n, len(cases))
